@@ -891,6 +891,50 @@ fn primitives(cx: &mut Ctx, rng: &mut Rng, n: u64) {
     cx.out.count_n("primitive-ops", (cases.len() + nums.len()) as u64);
 }
 
+/// encoder 3 (`encode_resp_into`, private to the connection handler) observed through hook H1:
+/// replies of a real connection, cut into frames; each frame must be what the model's encoder 3
+/// produces for the value it decodes to, and must re-decode under both decoders
+fn encoder3(cx: &mut Ctx) {
+    use crate::c04::{frame, Cfg, Runner};
+    let runner = Runner::new();
+    let cmds: Vec<Vec<&[u8]>> = vec![
+        vec![b"PING"], vec![b"ECHO", b"bin\r\n\x00\xff"], vec![b"GET", b"missing"], vec![b"SET", b"k", b"v"], vec![b"GET", b"k"],
+        vec![b"INCR", b"n"], vec![b"DECRBY", b"n", b"9223372036854775807"], vec![b"RPUSH", b"l", b"a", b"", b"c"], vec![b"LRANGE", b"l", b"0", b"-1"],
+        vec![b"LRANGE", b"nolist", b"0", b"-1"], vec![b"MULTI"], vec![b"GET", b"k"], vec![b"LRANGE", b"l", b"0", b"-1"], vec![b"INCR", b"n"], vec![b"EXEC"],
+        vec![b"NOSUCHCOMMAND", b"x"], vec![b"GET"], vec![b"EXEC"], vec![b"HSET", b"h", b"f", b"1"], vec![b"HGETALL", b"h"], vec![b"EXISTS", b"k", b"zz"],
+    ];
+    let segs: Vec<Vec<u8>> = cmds.iter().map(|c| frame(c)).collect();
+    let r = runner.run(&Cfg::default_like(), &segs);
+    let bytes = r.written.clone();
+    let mut off = 0;
+    let mut n = 0;
+    while off < bytes.len() {
+        let o = decode_here(2, &bytes[off..]);
+        if o.kind != Kind::Ok || o.consumed == 0 {
+            break;
+        }
+        let span = bytes[off..off + o.consumed].to_vec();
+        let v = o.val.clone().unwrap();
+        cx.out.op(format!("E3 {}", v.show()), hex(&span));
+        cx.out.case(&format!("E3|{}", v.show()), true);
+        cx.out.count("encoder3-replies");
+        check_decode(cx, 1, &span, "encoder3");
+        check_decode(cx, 2, &span, "encoder3");
+        off += o.consumed;
+        n += 1;
+    }
+    if n != cmds.len() || off != bytes.len() {
+        cx.out.violation("C15:roundtrip:other:enc3", "the replies of a connection do not decode into one value per command", json!({"commands": cmds.len(), "replies": n, "undecoded": bytes.len() - off, "written": hex(&bytes)}));
+    }
+    // a reply that embeds client bytes containing CR LF (unknown command name)
+    let inj = frame(&[b"FOO\r\n+INJECTED"]);
+    let r = runner.run(&Cfg::default_like(), &[inj.clone()]);
+    let o = decode_here(2, &r.written);
+    if o.kind == Kind::Ok && o.consumed < r.written.len() {
+        cx.out.violation("C15:roundtrip:crlf-in-line:enc3", "encode_resp_into writes the CR LF inside an error text unescaped: the reply to ONE command decodes to a shorter error followed by further frames", json!({"command": hex(&inj), "written": hex(&r.written), "first_frame": o.line()}));
+    }
+}
+
 fn run_inner(a: &Args) {
     install_silent_panic_hook();
     let quick = a.tier != "thorough";
@@ -902,6 +946,7 @@ fn run_inner(a: &Args) {
     exhaustive(&mut cx, if quick { 5 } else { 6 });
     header_exhaustive(&mut cx, if quick { 3 } else { 4 });
 
+    encoder3(&mut cx);
     // round trips of all small values
     for v in all_small_values() {
         check_roundtrip(&mut cx, &v, "all-small");
